@@ -175,7 +175,7 @@ pub fn special_inputs() -> Vec<String> {
     }
     // identifier shapes
     for id in [
-        "EXa", "EX_", "EX1", "EXX", "AXE", "E", "A", "A_", "EY", "AUx", "EWW", "3x", "3_", "33", "V1", "Vx", "V", "3", "1", "0", "01", "10", "1a", "true", "True", "TRUE",
+        "EXa", "EX_", "EX1", "EXX", "EF1", "AG0", "EG5", "EX_a", "AU_rich", "EW_2", "AX2b", "EU1", "AXE", "E", "A", "A_", "EY", "AUx", "EWW", "3x", "3_", "33", "V1", "Vx", "V", "3", "1", "0", "01", "10", "1a", "true", "True", "TRUE",
         "false", "False", "tt", "é", "éa", "aé", "٣", "a٣", "x²", "_", "__", "a_b", "in", "i", "n", "EXin", "αβ", "Ⅷ", "a.b", "a-b", "a'",
     ] {
         v.push(id.to_string());
